@@ -1044,11 +1044,30 @@ def replay_bc32_canon(w):
     try:
         r = bech32.bc32decode(s)
     except Exception as ex:
-        return {"violated": False, "observed": f"raised {ex!r}"}
-    if r is None:
-        return {"violated": False, "observed": "refused"}
-    e = bech32.bc32encode(r)
-    return {"violated": e != s, "observed": f"bc32decode({s}) = {r.hex()} but bc32encode gives {e}"}
+        r = None
+    if r is not None:
+        e = bech32.bc32encode(r)
+        if e != s:
+            return {"violated": True, "observed": f"bc32decode({s}) = {r.hex()} but bc32encode gives {e}"}
+    elif len(s) >= 6:
+        s = s[:-6] + _real_checksum(s[:-6])
+    # the model's checksum symbols live under the uninterpreted prefix function, so rebuild the class on the real polymod:
+    # every string that differs from a genuine encoding in ONE checksum / last-data character must be refused
+    alpha = "qpzry9x8gf2tvdw0s3jn54khce6mua7l"
+    base = s
+    for pos in range(max(0, len(base) - 8), len(base)):
+        for ch in alpha:
+            if ch == base[pos]:
+                continue
+            cand = base[:pos] + ch + base[pos + 1:]
+            try:
+                r2 = bech32.bc32decode(cand)
+            except Exception:
+                r2 = None
+            if r2 is not None:
+                return {"violated": True, "observed": f"bc32decode accepts {cand}, which differs from the valid text {base} in one character "
+                                                      f"(position {pos - len(base)}), decoding to {bytes(r2).hex()}"}
+    return {"violated": False, "observed": f"bc32decode({s}) round-trips and every single substitution in its last 8 characters is refused"}
 
 
 def _text_of(env, name, m, cased=True):
